@@ -464,6 +464,7 @@ func (p *Printer) appendTree(b []byte, n *node, offset, closes int) []byte {
 }
 
 func (p *Printer) caseName(name string) string {
+	orig := name
 	switch p.Case {
 	case upcaseKey:
 		name = strings.ToUpper(name)
@@ -474,6 +475,12 @@ func (p *Printer) caseName(name string) string {
 		rn := []rune(name)
 		rn[0] = unicode.ToUpper(rn[0])
 		name = string(rn)
+	}
+	if !strings.EqualFold(name, orig) {
+		// The conversion would name a different symbol (symbols are
+		// compared with EqualFold, U+0130 and U+0131 do not fold to i and
+		// I) so leave the name as it is.
+		name = orig
 	}
 	return name
 }
